@@ -1,18 +1,25 @@
 (* Executable judge for C09 correspondence cases.
 
    One case = one engine with limit [cfg] and one driven history.  The driver
-   works in WINDOWS: one action (start a render, tell a render inside to
-   return / fail / panic, cancel a waiting render, probe), then it waits for
-   the observable state to settle and records
+   works in WINDOWS: one action (start a render - with a live context, with a
+   context that is already cancelled / past its deadline, or with a context
+   that ends by itself at its k-th use -, tell a render inside to return / fail
+   / panic, cancel a waiting render, cancel a waiting render WHILE telling a
+   render inside to return, probe), then it waits for the observable state to
+   settle and records
      w_returned : the Render calls that returned in the window, with their class,
+     w_entered  : the renders that reported "past the gate" in the window,
      w_inside   : renders that reported "past the gate" and have not returned,
      w_waiting  : renders started, not inside, not returned,
+     w_ended    : renders whose context was seen to be over for the first time
+                  in this window (started so, cancelled by the action, ended by itself),
    and the emitter turns the window into gate events in a fixed order that is
-   the most permissive for the acceptor: Start (the action), Leave of renders
-   that were inside before, Cancel of waiting renders that returned a context
-   error, Enter+Leave of renders that passed through within the window (missing
-   template), Enter of renders newly inside.  With the limit disabled there
-   are no Enter events (Start puts a render in flight).
+   the most permissive for the acceptor: Start (the action), CtxEnd of the
+   contexts that ended, Leave of renders that were inside before, Cancel of
+   waiting renders that returned a context error, Enter+Leave of renders that
+   passed through within the window (missing template), Enter of renders newly
+   inside.  With the limit disabled there are no Enter events (Start puts a
+   render in flight).
 
    agree  : the acceptor M accepts the whole trace, after every window its
             inflight/waiting sets are the observed inside/waiting sets,
@@ -33,6 +40,8 @@ Definition cls_eqb (a b : cls) : bool :=
 
 Record win := {
   w_events   : list gate_event;
+  w_entered  : list rid;
+  w_ended    : list rid;
   w_inside   : list rid;
   w_waiting  : list rid;
   w_returned : list (rid * cls);
@@ -42,7 +51,8 @@ Record case09 := {
   cfg       : nat;                   (* configured limit (WithRateLimit or Inject) *)
   go_limit  : nat;                   (* GetRateLimit() *)
   wins      : list win;
-  cancels   : list (rid * bool);     (* cancel actions: render, caller returned within the bound (500 ms) *)
+  cancels   : list (rid * bool);     (* cancel of a waiter while the gate stays full: render, caller returned
+                                        within the bound (500 ms) *)
   commanded : list (rid * outcome);  (* the way out each render was told to take (missing template: o_not_found) *)
   refill_ok : bool;                  (* at the quiescent end [cfg] fresh renders were inside together *)
 }.
@@ -86,9 +96,35 @@ Definition ok_cancels (c : case09) : bool :=
              && forallb (fun w => negb (memr r (w_inside w))) (wins c))
           (cancels c).
 
+(* contexts ([over] = the renders whose context is known to be over, cumulative):
+   promptly  - when a window closes (the driver has then waited up to 500 ms for it)
+               no render whose context is over is still waiting: it has its error
+               or, where a slot was free, is inside;
+   only then - the context error is given only to a render whose context is over *)
+Fixpoint ok_ctx (over : list rid) (ws : list win) : bool :=
+  match ws with
+  | [] => true
+  | w :: t =>
+    let over' := w_ended w ++ over in
+    forallb (fun r => negb (memr r over')) (w_waiting w)
+    && forallb (fun rk : rid * cls => negb (cls_eqb (snd rk) c_ctx_error) || memr (fst rk) over')
+               (w_returned w)
+    && ok_ctx over' t
+  end.
+
+(* takes no slot, as far as a single call shows it: who got the context error was
+   never past the gate.  (A slot that is taken and kept by such a call shows in
+   [ok_no_stall] - somebody waits below the limit - and in [refill_ok].) *)
+Definition ok_ctx_outside (c : case09) : bool :=
+  forallb (fun rk : rid * cls =>
+             negb (cls_eqb (snd rk) c_ctx_error)
+             || forallb (fun w => negb (memr (fst rk) (w_inside w)) && negb (memr (fst rk) (w_entered w)))
+                        (wins c))
+          (all_returned c).
+
 Definition oracle09 (c : case09) : bool :=
   (go_limit c =? cfg c) && ok_bound c && ok_no_stall c && ok_gone [] (wins c)
-  && ok_cancels c && refill_ok c.
+  && ok_cancels c && ok_ctx [] (wins c) && ok_ctx_outside c && refill_ok c.
 
 (* ------------------------------------------------------------ agreement with M *)
 
@@ -103,23 +139,29 @@ Fixpoint accept (s : option gate_state) (ws : list win) : bool :=
     end
   end.
 
-Definition class_fits (c : case09) (rk : rid * cls) : bool :=
+(* the class a Render call returned with fits what M did with it: the context
+   error exactly for the renders M cancelled (so: context over, never entered),
+   otherwise the way out the render was told to take *)
+Definition class_fits (c : case09) (cancelled : list rid) (rk : rid * cls) : bool :=
   let (r, k) := rk in
-  match assoc r (cancels c) with
-  | Some _ => cls_eqb k c_ctx_error
-  | None =>
-    match assoc r (commanded c) with
-    | Some o_ok => cls_eqb k c_ok
-    | Some o_not_found => cls_eqb k c_not_found
-    | Some o_func_error | Some o_panic => cls_eqb k c_error || cls_eqb k c_exec_panic
-    | None => false
-    end
-  end.
+  if memr r cancelled then cls_eqb k c_ctx_error
+  else
+    match assoc r (cancels c) with
+    | Some _ => false
+    | None =>
+      match assoc r (commanded c) with
+      | Some o_ok => cls_eqb k c_ok
+      | Some o_not_found => cls_eqb k c_not_found
+      | Some o_func_error | Some o_panic => cls_eqb k c_error || cls_eqb k c_exec_panic
+      | None => false
+      end
+    end.
 
 Definition agree09 (c : case09) : bool :=
+  let cancelled := cancelled_of (flat_map w_events (wins c)) in
   (go_limit c =? get_rate_limit (gate_init (cfg c)))
   && accept (Some (gate_init (cfg c))) (wins c)
-  && forallb (class_fits c) (all_returned c).
+  && forallb (class_fits c cancelled) (all_returned c).
 
 Definition judge (c : case09) : nat := verdict true (oracle09 c) (agree09 c).
 
